@@ -45,7 +45,7 @@ pub fn check(tier: Tier) -> Check {
         also_rel: false,
         property: "C11",
         level: "model_checking",
-        rule: "(a) 12 deterministic runs of 70 000 identifier-consuming operations through the real handle/context (QoS 1 only, QoS 2 only, subscribe only, round robin) with 0, 1 or 3 acknowledgements outstanding, and 3 runs in which one QoS 1 publish stays outstanding during 65 530 requests that need no identifier (QoS 0 publishes / pings / both) followed by 12 that do; (b) all sequences of operation starts and acknowledgements up to the stated depth from counters preset (hook) to 65533/65534/65535 and subscription identifiers preset to 1/127/268435454; (b') the same with Receive Maximum 1 or Maximum Packet Size 12 in force, so that locally refused requests sit between the accepted ones, the context task held back and released (deviations); (b'') the same with the operations issued on one long-lived handle (one after the other) and on clones taken from it in between; (b''') an operation whose future is created, left unpolled while the counters go once round (rewound by the hook) and another operation takes the same values, and polled then; (c) differential validation of the hook against an honest run to the same point; (d) loom: all interleavings (unbounded; 3x2 with preemption bound 3 in thorough) of 2 threads x 2 and 3 threads x 1 first polls of publish QoS 1/2, subscribe, unsubscribe on real handle clones at the two library atomics, started at counters 1 and next to the wrap, drained through the real Context and decoded; oracle: every identifier on the wire is non-zero (strict decoder), differs from every outstanding one, subscription identifiers are never reused, no panic; non-trivial = the packet identifier counter wrapped".into(),
+        rule: "(a) 12 deterministic runs of 70 000 identifier-consuming operations through the real handle/context (QoS 1 only, QoS 2 only, subscribe only, round robin) with 0, 1 or 3 acknowledgements outstanding, and 3 runs in which one QoS 1 publish stays outstanding during 65 530 requests that need no identifier (QoS 0 publishes / pings / both) followed by 12 that do; (b) all sequences of operation starts and acknowledgements up to the stated depth from counters preset (hook) to 65533/65534/65535 and subscription identifiers preset to 1/127/268435454; (b') the same with Receive Maximum 1 or Maximum Packet Size 12 in force, so that locally refused requests sit between the accepted ones, the context task held back and released (deviations); (b'') the same with the operations issued on one long-lived handle (one after the other) and on clones taken from it in between; (b''') an operation whose future is created, left unpolled while the counters go once round (rewound by the hook) and another operation takes the same values, and polled then; (c) differential validation of the hook against an honest run to the same point; (d) loom: all interleavings (unbounded; 3x2 with preemption bound 3 in thorough) of 2 threads x 2 and 3 threads x 1 first polls of publish QoS 1/2, subscribe, unsubscribe on real handle clones at the two library atomics, started at counters 1 and next to the wrap, drained through the real Context and decoded; oracle: every identifier on the wire is non-zero (strict decoder), differs from every outstanding one, subscription identifiers are never reused, no panic; one publish outstanding during 65 530 requests that need no identifier followed by twelve that do; inbound QoS 1/2 messages with identifiers around the wrap in the near-wrap alphabet; non-trivial = the packet identifier counter wrapped".into(),
         assumptions: vec![
             "fewer than 65535 identifiers are allocated while any operation is outstanding (premise of the property)".into(),
             "loom explores interleavings at the two library atomics only; futures-channel (std atomics) is in the trusted base".into(),
